@@ -104,7 +104,7 @@ def jobs_for(pids=None):
         if ps2:
             jobs.append(('silent', ps2, module, old, new, None, None, f'silent-{i:03d}-{"+".join(ps2)}'))
     allp = tuple(sorted(pids)) if pids else tuple(f'C{i:02d}' for i in range(1, 21))
-    for tname in ('rename', 'flipcmp', 'swapif', 'all'):
+    for tname in ('rename', 'flipcmp', 'swapif', 'all', 'augexpand', 'reorder', 'retlocal', 'demorgan'):
         jobs.append(('silent', allp, '*transform*', tname, None, None, None, f'silent-transform-{tname}'))
     for patch in sorted(glob.glob(os.path.join(VERIF, 'seeded', '*', 'patch.diff'))):
         name = os.path.basename(os.path.dirname(patch))
